@@ -410,9 +410,30 @@ func (p *Process) createTasks() (ch chan *Task) {
 				break
 			}
 		}
+		// Keep receiving on ports that are still open, so that upstream
+		// processes, which might feed also other processes, are not blocked
+		// forever on an in-port that nobody reads from anymore
+		p.drainInPorts()
 		vhook("ct.end", "proc", p.Name())
 	}()
 	return ch
+}
+
+// drainInPorts receives, and drops, everything that still arrives on the
+// in-ports and parameter in-ports of the process, until they are closed
+func (p *Process) drainInPorts() {
+	for _, inPort := range p.inPorts {
+		go func(ch chan *FileIP) {
+			for range ch {
+			}
+		}(inPort.Chan)
+	}
+	for _, paramPort := range p.inParamPorts {
+		go func(ch chan string) {
+			for range ch {
+			}
+		}(paramPort.Chan)
+	}
 }
 
 type taskQueue []*Task
